@@ -714,4 +714,57 @@ theorem deleteKey_refines {h : Heap} (hs : Struct h) (ha : Acyc h) (n : Nat) (hn
   rw [hkids, mapM_filter_members (fun p => absVal fuel h p.2) (fun key => !(key == k)) _ kvs hold]
   rfl
 
+/-! ### AppendObject under an EXISTING key: the member is replaced -/
+
+/-- `remove` of a member of an object, on plain data (the core of `deleteKey_refines`, stated for `remove` itself) -/
+theorem removeObject_refines {h : Heap} (hs : Struct h) (ha : Acyc h) (n : Nat) (hn : n < h.size) (hobj : (h.get n).type = .object)
+    (k : Bytes) (c : Id) (hl : (h.childMap n).lookup k = some c) (fuel : Nat) :
+    (∀ m : Id, ¬ Anc h m n → absVal fuel (h.remove n c).1 m = absVal fuel h m) ∧
+    (∀ kvs, absVal (fuel + 1) h n = some (.obj kvs) →
+      absVal (fuel + 1) (h.remove n c).1 n = some (.obj (kvs.filter (fun y => !(y.1 == k))))) := by
+  obtain ⟨r1, r2, r3⟩ := deleteKey_refines hs ha n hn hobj k c hl fuel
+  have okn := hs n hn
+  obtain ⟨_, _, hpc, hpos⟩ := okn.kids (k, c) (mem_of_lookup hl)
+  have hkc : (h.get c).key = some k := by
+    unfold PosOK at hpos
+    rw [hobj] at hpos
+    simpa using hpos
+  have hg : h.getKey (some n) k = .ok c := by
+    unfold Heap.getKey
+    have ht : h.typeOf n = .object := hobj
+    simp only [ht, bne_self_eq_false, Bool.false_eq_true, if_false, hl]
+  have hrm := remove_object_eq h n c k hobj hpc hkc
+  have hpop : (h.popKey (some n) k).1 = (h.remove n c).1 := by
+    unfold Heap.popKey
+    simp only [hg, hrm]
+  rw [hpop] at r2 r3
+  exact ⟨r2, r3⟩
+
+/-- **AppendObject under an existing key replaces the member**: for a detached `v` and a key that names the member `old`, afterwards
+the receiver denotes its old members without the one under `k`, followed by (k, value of v); every node off the receiver's ancestor
+chain — the replaced member, now detached, included — denotes what it denoted before -/
+theorem appendObject_replace_refines {h : Heap} (hs : Struct h) (ha : Acyc h) (n v : Nat) (hn : n < h.size) (hv : v < h.size)
+    (hobj : (h.get n).type = .object) (hloop : h.isParentOrSelfNode n v = false) (hroot : (h.get v).parent = none)
+    (k : Bytes) (old : Id) (hold : (h.childMap n).lookup k = some old) (fuel : Nat) :
+    (∀ m : Id, ¬ Anc h m n → absVal fuel (h.appendObject n k v).1 m = absVal fuel h m) ∧
+    (∀ kvs x, absVal (fuel + 1) h n = some (.obj kvs) → absVal fuel h v = some x →
+      absVal (fuel + 1) (h.appendObject n k v).1 n = some (.obj (kvs.filter (fun y => !(y.1 == k)) ++ [(k, x)]))) := by
+  obtain ⟨e, sA, aA, zA, tyA, rootA, loopA, freshA⟩ := appendNode_object_replace hs ha n v old hn hv hobj hloop hroot k hold
+  obtain ⟨d1, d2⟩ := removeObject_refines hs ha n hn hobj k old hold fuel
+  have hio : h.isObject n = true := by simp [isObject, typeOf, hobj]
+  have hioA : (h.remove n old).1.isObject n = true := by simp [isObject, typeOf, tyA n, hobj]
+  have heq : h.appendObject n k v = (h.remove n old).1.appendObject n k v := by
+    unfold Heap.appendObject
+    simp only [hio, hioA, Bool.not_true, Bool.false_eq_true, if_false, e]
+  rw [heq]
+  obtain ⟨a1, a2⟩ := appendObject_refines sA aA n v (by rw [zA]; exact hn) (by rw [zA]; exact hv) (by rw [tyA]; exact hobj) loopA rootA k freshA fuel
+  have hno : ¬ Anc h v n := by
+    intro hc
+    have := (loop_guard_exact hs.pir ha n hn v).mpr hc
+    rw [hloop] at this; cases this
+  have hancA : ∀ m : Id, Anc (h.remove n old).1 m n → Anc h m n := fun m ⟨j, hj⟩ => ⟨j, up_of_parent_sub (remove_parent_sub h n old) n j m hj⟩
+  refine ⟨fun m hm => ?_, fun kvs x hkvs hx => ?_⟩
+  · rw [a1 m (fun hc => hm (hancA m hc)), d1 m hm]
+  · exact a2 _ x (d2 kvs hkvs) (by rw [d1 v hno]; exact hx)
+
 end Ajson.Proofs
